@@ -1077,3 +1077,44 @@ def _rebinds(step) -> set[str]:
     from ..paths import _binds
 
     return _binds(step)
+
+
+def r14_17_partial_join_resolved(ctx: Ctx, rule: str) -> None:
+    """The join a PartialJoin hands on is resolved: min_columns == max_columns."""
+    run, m = ctx.run, ctx.m
+    run.rule(
+        rule,
+        "PartialJoin._begin_apply reaches the base implementation only with a join whose common columns are resolved "
+        "(`binary.max_columns == binary.min_columns` established on the path); every other path goes through the "
+        "re-resolved replacement: the SQL engine builds the join node from `binary` as it stands, so an unresolved join "
+        "(an explicit max_columns that differs from min_columns) would sit in the tree, where `common_columns` raises",
+        expected_min=1,
+    )
+    f = ctx.op_class("PartialJoin").methods.get("_begin_apply")
+    if f is None:
+        raise AnalysisError("PartialJoin._begin_apply is missing")
+    n = 0
+    for i, p in enumerate(ctx.paths(f)):
+        if p.outcome != "return":
+            continue
+        v = p.value
+        if not (isinstance(v, ast.Call) and call_attr(v) == "_begin_apply" and isinstance(v.func, ast.Attribute) and isinstance(v.func.value, ast.Call) and isinstance(v.func.value.func, ast.Name) and v.func.value.func.id == "super"):
+            continue
+        n += 1
+        facts = path_facts(p)
+        resolved = any(fc.kind == "EQ" and fc.polarity and set(fc.args) == {"self.binary.max_columns", "self.binary.min_columns"} for fc in facts)
+        inst = f"path{i}:resolved"
+        if resolved:
+            run.ok(rule, inst)
+        else:
+            run.fail(
+                rule,
+                inst,
+                "the base _begin_apply is reached on a path that has not established `self.binary.max_columns == self.binary.min_columns`: a join given an explicit max_columns "
+                "that differs from its min_columns is passed on unresolved",
+                fi=f,
+                node=p.node,
+                details=describe(p),
+            )
+    if n == 0:
+        raise AnalysisError("PartialJoin._begin_apply no longer reaches the base implementation")
